@@ -51,7 +51,7 @@ theorem final_step {s s' : St} {a : Action} (hi : CloseInv s) (hf : Final s) (h 
         subst h
         have h1 := cstepFn_isClosed hfn hc
         have h2 := (cstepFn_mono hfn).1 hsig
-        have h4 := (cstepFn_closers hfn).2.2.2.2
+        have h4 := (cstepFn_closers hfn).2.2.2.2.1
         rcases cstepFn_conn hfn with ⟨e1, e2⟩ | ⟨x, e1, e2⟩
         · exact ⟨⟨h1, h2, by simp only; rw [e1, hconn]⟩, e2, h4⟩
         · have := storeSection_final x hi.g.retest hc hconn
@@ -78,6 +78,18 @@ theorem final_step {s s' : St} {a : Action} (hi : CloseInv s) (hf : Final s) (h 
   | env ice dtls =>
     simp only [step, Option.some.injEq] at h
     subst h
+    exact ⟨⟨hc, hsig, hconn⟩, rfl, rfl⟩
+  | lDeliver l =>
+    simp only [step] at h
+    split at h <;> (try split at h) <;> cases h
+    exact ⟨⟨hc, hsig, hconn⟩, rfl, rfl⟩
+  | lReturn l =>
+    simp only [step] at h
+    split at h <;> cases h
+    exact ⟨⟨hc, hsig, hconn⟩, rfl, rfl⟩
+  | lExit l =>
+    simp only [step] at h
+    split at h <;> cases h
     exact ⟨⟨hc, hsig, hconn⟩, rfl, rfl⟩
 
 /-! ### the notification log: `closed` at most once; the last report is the stored state -/
@@ -136,19 +148,22 @@ theorem ninv_step {c0 : Pc} {s s' : St} {a : Action} (hi : CloseInv s) (hn : NIn
     · cases h
   | api a env => simp only [step, Option.some.injEq] at h; subst h; exact hn
   | env ice dtls => simp only [step, Option.some.injEq] at h; subst h; exact hn
+  | lDeliver l => simp only [step] at h; split at h <;> (try split at h) <;> cases h; exact hn
+  | lReturn l => simp only [step] at h; split at h <;> cases h; exact hn
+  | lExit l => simp only [step] at h; split at h <;> cases h; exact hn
 
 theorem ninv_of_reachable {gs : List Bool} {nu : Nat} {c0 : Pc} {s : St} (h : Reachable gs nu c0 s) : NInv c0 s := by
   induction h with
-  | init => exact ⟨by simp [init], Or.inl ⟨rfl, rfl⟩⟩
+  | init ls => exact ⟨by simp [init], Or.inl ⟨rfl, rfl⟩⟩
   | step a hr hs ih => exact ninv_step (closeInv_of_reachable hr) ih hs
 
 /-! ### consequences of the invariant used by several theorems -/
 
-theorem canon_take_10 : BStep.canon.take 10 = BStep.canon := rfl
+theorem canon_take_11 : BStep.canon.take 11 = BStep.canon := rfl
 
 /-- the main caller has finished the body (it is at a deferred close or has returned) -/
 theorem body_complete_of_main {s : St} {m : Nat} {clm : Closer} (hok : COk s m clm) (hr : clm.role = .main)
-    (hp : prog clm.pc = 10) : s.bodyLog = BStep.canon := by
+    (hp : prog clm.pc = 11) : s.bodyLog = BStep.canon := by
   rw [hok.mainLog hr, hp]; rfl
 
 /-- isCloseDone closed ⇒ the body is complete -/
@@ -192,5 +207,56 @@ theorem body_complete_of_gracefulDone {s : St} (hi : CloseInv s) (hgd : s.gracef
 theorem final_of_body_complete {s : St} (hi : CloseInv s) (hb : s.bodyLog = BStep.canon) : Final s := by
   refine ⟨hi.g.logClosed (by rw [hb]; simp [BStep.canon]), ?_, hi.g.stored (by rw [hb]; decide)⟩
   rw [hi.g.sig, hb]; decide
+
+/-- isGracefulCloseDone closed ⇒ every data-channel read loop goroutine has ended -/
+theorem joined_of_gracefulDone {s : St} (hi : CloseInv s) (hgd : s.gracefulDone = true) :
+    allExited s.loops = true := by
+  cases ho : s.gOwner with
+  | none => have := (hi.g.noOwner ho).1; rw [hgd] at this; cases this
+  | some o =>
+    obtain ⟨clo, hclo, hown⟩ := hi.ownerAt o ho
+    have hok := hi.each o clo hclo
+    have hp := hok.ownerGDone hown
+    rw [hgd] at hp
+    apply hok.ownerJoined hown
+    obtain ⟨g, role, pc⟩ := clo
+    cases role <;> cases pc <;> simp [pastDG] at hp <;> simp [pastJoin]
+
+/-- a read loop goroutine that has ended stays ended -/
+theorem allExited_step {s s' : St} {a : Action} (h : step s a = some s') (he : allExited s.loops = true) :
+    allExited s'.loops = true := by
+  cases a with
+  | cstep c =>
+    simp only [step] at h
+    cases hcl : s.closers[c]? with
+    | none => simp [hcl] at h
+    | some cl =>
+      cases hfn : cstepFn s c cl with
+      | none => simp [hcl, hfn] at h
+      | some r =>
+        obtain ⟨s1, cl'⟩ := r
+        simp only [hcl, hfn, Option.some.injEq] at h
+        subst h
+        have := (cstepFn_closers hfn).2.2.2.2.2
+        simp only; rw [this]; exact he
+  | uCompute u ice dtls => simp only [step] at h; split at h <;> cases h; exact he
+  | uStore u => simp only [step] at h; split at h <;> cases h; exact he
+  | api a env => simp only [step, Option.some.injEq] at h; subst h; exact he
+  | env ice dtls => simp only [step, Option.some.injEq] at h; subst h; exact he
+  | lDeliver l =>
+    simp only [step] at h
+    split at h
+    · rename_i hl; have := allExited_getElem he hl; cases this
+    · cases h
+  | lReturn l =>
+    simp only [step] at h
+    split at h
+    · rename_i hl; have := allExited_getElem he hl; cases this
+    · cases h
+  | lExit l =>
+    simp only [step] at h
+    split at h
+    · rename_i hl; have := allExited_getElem he hl; cases this
+    · cases h
 
 end WebrtcVerif.Close
